@@ -559,6 +559,47 @@ pub fn exec_interleaved_multi(ws: &[&Workload], cfg: SchedCfg, sched: Tape, even
     InterleavedOutcome { ending, streams, completed: done, sched, switches, fires, violations }
 }
 
+/// Line span of `fn construct_outputs` in /repo's execution.rs (where the engine builds each result
+/// row and asserts that its keys are the declared output names), read from the source the
+/// simulator was built against. `None` if the function cannot be located.
+pub fn construct_outputs_span() -> Option<(u32, u32)> {
+    use std::sync::OnceLock;
+    static SPAN: OnceLock<Option<(u32, u32)>> = OnceLock::new();
+    *SPAN.get_or_init(|| {
+        let text = std::fs::read_to_string("/repo/trustfall_core/src/interpreter/execution.rs").ok()?;
+        let mut start = None;
+        for (i, line) in text.lines().enumerate() {
+            let ln = i as u32 + 1;
+            match start {
+                None => {
+                    if line.starts_with("fn construct_outputs") {
+                        start = Some(ln);
+                    }
+                }
+                Some(s) => {
+                    // the function ends at the first line that is exactly "}" in column 0
+                    if line == "}" {
+                        return Some((s, ln));
+                    }
+                }
+            }
+        }
+        None
+    })
+}
+
+/// C13: is this panic the engine's own row-construction consistency check (row keys / values
+/// versus declared outputs, inside `construct_outputs`)? The simulator is built with debug
+/// assertions on, so where a production build would hand out a row whose keys differ from the
+/// declared outputs, this build panics there instead; C13 must count that as its violation.
+pub fn panic_in_row_construction(info: &PanicInfo) -> bool {
+    let Some((a, b)) = construct_outputs_span() else { return false };
+    // the panic hook records "file:line"
+    let Some((file, line)) = info.location.rsplit_once(':') else { return false };
+    let line = line.parse::<u32>().ok();
+    file.ends_with("trustfall_core/src/interpreter/execution.rs") && line.map(|l| l >= a && l <= b).unwrap_or(false)
+}
+
 /// C13: each row carries exactly the declared outputs, each value valid for the declared type,
 /// and the declared type is the one the documented rule gives.
 pub fn check_rows_c13(w: &Workload, raw_rows: &[BTreeMap<Arc<str>, FieldValue>]) -> Option<(String, String)> {
